@@ -634,7 +634,7 @@ def merge_records(ctx, pieces):
             mid = full[:]
             mid.insert(len(mid) // 2, ('a', ta))
             cases.append(mid)
-            if split <= 3:
+            if split <= 3 or (not ctx.quick and nj == 9):
                 # every multiset of pieces with multiplicities 0..2 (every subset of missing AND duplicated pieces)
                 for mult in itertools.product([0, 1, 2], repeat=split):
                     if sum(mult) == 0 or max(mult) < 2:
@@ -1255,6 +1255,19 @@ def quad_records(ctx):
             theta = THETAS[(2 * k + ext) % len(THETAS)]
             add('integrate1d', 'Cache1D.integrate', {'theta': rat(theta), 'ext': ext, 'c1': enc_c1(c), 'pdf1': tab1(name, p, c.neg_gammas)},
                 obs(lambda: c.integrate(pv, None, getattr(PDFs, name), theta, None, exterior_int=ext)), cls=name + '/fixed')
+    # the regime of real analyses: the default gamma_bounds (1e-4, 2000), shapes with a singular density at 0
+    # (gamma / beta shape < 1), heavy lethal tails
+    for k, (name, p, lo, hi, n) in enumerate([('gamma', [0.2, 10.0], 0.125, 4.0, 5), ('gamma', [0.2, 1000.0], 1e-4, 2000.0, 8),
+                                              ('lognormal', [5.0, 3.0], 1e-4, 2000.0, 8), ('exponential', [50.0], 1e-4, 2000.0, 6),
+                                              ('beta', [0.5, 2.0], 0.01, 2.0, 5), ('gamma', [0.05, 5.0], 1e-3, 100.0, 6)]):
+        c = small_cache1(n, lo, hi, extra=(2.5,))
+        theta = THETAS[k % len(THETAS)]
+        add('integrate1d', 'Cache1D.integrate', {'theta': rat(theta), 'ext': True, 'c1': enc_c1(c), 'pdf1': tab1(name, p, c.neg_gammas)},
+            obs(lambda: c.integrate(p, None, getattr(PDFs, name), theta, None)), cls=name + '/fixed-regime%d' % k)
+    cw = small_cache2(5, 1e-4, 2000.0, extra=(2.5,))
+    for name, p in [('biv_lognormal', [5.0, 3.0, 0.8]), ('biv_ind_gamma', [0.2, 1000.0])]:
+        add('integrate2d', 'Cache2D.integrate', {'theta': rat(2.5), 'ext': True, 'c2': enc_c2(cw), 'pdf2': tab2(name, p, cw.neg_gammas)},
+            obs(lambda: cw.integrate(p, None, getattr(PDFs, name), 2.5, None)), cls=name + '/fixed-regime')
     # grids: a single gamma, two gammas, no additional gammas; theta = 0, theta as Python int
     for n, extra, theta, name in [(1, (2.5,), 2.5, 'fam'), (1, (), 1.0, 'exponential'), (2, (2.5,), 1000.0, 'fam'), (2, (), 2.5, 'lognormal'),
                                   (3, (), 0.375, 'gamma'), (8, (2.5, 0.75), 0, 'fam'), (4, (2.5,), 1, 'fam'), (5, (), 3, 'beta')]:
@@ -1270,10 +1283,11 @@ def quad_records(ctx):
     # point masses: proportion 0, proportion 1, two masses summing to 1, uncached, additional gamma given as int
     for k, (props, gpos, extra, use_func) in enumerate([([0.0], [2.5], (2.5, 0.75), False), ([1.0], [0.75], (2.5, 0.75), False),
                                                         ([0.5, 0.5], [2.5, 0.75], (2.5, 0.75), True), ([0.25], [1.5], (2.5,), True),
-                                                        ([0.125], [2], (2, 0.75), False), ([0.25, 0.125], [3.25, 1.5], (), True)]):
+                                                        ([0.125], [2], (2, 0.75), False), ([0.25, 0.125], [3.25, 1.5], (), True),
+                                                        ([0.125, 0.25, 0.0625], [2.5, 0.75, 1.5], (2.5, 0.75), True)]):
         c = small_cache1(4 + k % 3, 0.125, 4.0, extra=extra)
         name, p = FIX1[k % 4]
-        theta = [2.5, 1000.0, 0.375, 1, 12345.678, 2.5][k]
+        theta = [2.5, 1000.0, 0.375, 1, 12345.678, 2.5, 0.375][k]
         pp = []
         for pr, g in zip(props, gpos):
             if g in list(c.gammas):
